@@ -676,9 +676,7 @@ def rule_sequence_shape(ctx: Ctx, rule: str) -> None:
     so = repo.const(WP, 'SET_OPERATORS')
     ctx.ob(rule, f'{WP}:SET_OPERATORS', so == frozenset(('&', '~', '|')), repo.loc(WP, repo.const_line(WP, 'SET_OPERATORS')), "{'&', '~', '|'}", str(sorted(so)),
            witness="fnmatch('&', '[&&]') must not trigger Python's nested-set syntax")
-    esc = [s for s in q.stmts(lambda n: isinstance(n, ast.Assign)) if norm_src(s.targets[0]) == 'value' and ('c in SET_OPERATORS', 'T') in q.guards(s)]
-    ctx.ob(rule, f'{WP}:WcParse._sequence/set-operators-escaped', len(esc) == 1 and norm_src(esc[0].value) == "'\\\\' + c", repo.loc(WP, esc[0] if esc else sq.node),
-           "value = '\\\\' + c under c in SET_OPERATORS", norm_src(esc[0].value) if esc else 'none')
+    seqrules.rule_scan_loops(ctx, rule, which={'set-operators-escaped', 'posix-marker-cleared', 'posix-in-loop'})
     hy = [s for s in q.stmts(lambda n: isinstance(n, ast.Expr)) if norm_src(s.value) == "result.append('\\\\' + c)" and ("c == '-'", 'T') in q.guards(s)]
     ctx.ob(rule, f'{WP}:WcParse._sequence/literal-hyphen-escaped', len(hy) >= 2, repo.loc(WP, sq.node), "a `-` that is not a range delimiter is emitted as `\\-`", str(len(hy)),
            witness="fnmatch('-', '[a-c-]') must be True and must not create a second range")
@@ -723,3 +721,42 @@ def rule_is_hidden(ctx: Ctx, rule: str) -> None:
 def as_bool_(p: Any) -> Any:
     from .common import as_bool
     return as_bool(p, p.ret)
+
+
+def rule_descriptor_presence(ctx: Ctx, rule: str) -> None:
+    ctx.text(rule, 'a directory descriptor is an int and 0 is a valid one: wherever glob.py / _wcmatch.py decide whether a descriptor was '
+                   'given (`dir_fd` parameter, self.dir_fd), the test is an identity test against None, never truthiness (consistency rule: '
+                   'all sites must agree with the majority form `is None` / `is not None`)')
+    repo = ctx.repo
+    n = 0
+
+    def is_fd(x: ast.AST) -> bool:
+        return (isinstance(x, ast.Name) and x.id == 'dir_fd') or (isinstance(x, ast.Attribute) and x.attr == 'dir_fd')
+
+    for mod in ('glob', '_wcmatch'):
+        for fi in repo.mod(mod).functions.values():
+            if not hasattr(fi.node, 'body') or isinstance(fi.node, ast.Lambda):
+                continue
+            for x in walk_no_nested(fi.node):
+                tests: list[ast.AST] = []
+                if isinstance(x, (ast.If, ast.While, ast.IfExp)):
+                    tests.append(x.test)
+                elif isinstance(x, ast.Assert):
+                    tests.append(x.test)
+                for t in tests:
+                    todo = [t]
+                    while todo:
+                        e = todo.pop()
+                        if isinstance(e, ast.BoolOp):
+                            todo.extend(e.values)
+                        elif isinstance(e, ast.UnaryOp) and isinstance(e.op, ast.Not):
+                            todo.append(e.operand)
+                        elif is_fd(e):
+                            n += 1
+                            ctx.ob(rule, f'{fi.fq}/descriptor-truthiness@{n}', False, repo.loc(mod, e), '`is None` / `is not None`', f'truthiness of {norm_src(e)}',
+                                   witness="glob('name', dir_fd=0) must look the name up relative to descriptor 0, like any other descriptor")
+                        elif isinstance(e, ast.Compare) and len(e.ops) == 1 and is_fd(e.left) and isinstance(e.ops[0], (ast.Is, ast.IsNot)) and \
+                                isinstance(e.comparators[0], ast.Constant) and e.comparators[0].value is None:
+                            n += 1
+                            ctx.ob(rule, f'{fi.fq}/descriptor-test@{n}', True, repo.loc(mod, e), '`is None` / `is not None`', norm_src(e))
+    ctx.floor(rule, 'descriptor presence tests', n, 5)
